@@ -352,12 +352,6 @@ Proof.
   apply G in Hc. apply in_rev. exact Hc.
 Qed.
 
-Lemma comment_all_lines_fixed : forall t, all_commented (comment_fixed t).
-Proof.
-  intros t. unfold comment_fixed. apply comment_all_lines_nbc.
-  apply crfree_no_bare_cr. apply rstrip_crfree. apply universal_crfree.
-Qed.
-
 (* ---------------------------------------------------------------------------------------------
    _indent *)
 
@@ -388,13 +382,6 @@ Proof.
   intros ind t Hn Hc H. unfold all_indented. rewrite indent_phys by assumption.
   rewrite map_map. apply Forall_map. apply Forall_forall. intros l _ Hl.
   destruct (indent_line_phys ind l Hc Hl) as [_ E]. rewrite E. apply starts_with_app.
-Qed.
-
-Lemma indent_all_lines_fixed : forall ind t, nlfree ind -> crfree ind ->
-  all_indented ind (indent_fixed ind t).
-Proof.
-  intros. unfold indent_fixed. apply indent_all_lines_nbc; try assumption.
-  apply crfree_no_bare_cr. apply universal_crfree.
 Qed.
 
 (* columns *)
@@ -444,14 +431,6 @@ Proof.
     + destruct (e =? NL); [right; apply IH; exact H|].
       destruct H as [H|H]; [congruence|right; apply IH; exact H].
   - destruct H as [H|H]; [left; exact H|right; apply IH; exact H].
-Qed.
-
-Lemma indent_cols_fixed : forall n t, ~ In FF t ->
-  all_indented_cols (repeat SP n) (indent_fixed (repeat SP n) t).
-Proof.
-  intros n t Hf. unfold indent_fixed. apply indent_cols_nbc.
-  - intros Hi. apply Hf. apply universal_in in Hi; [exact Hi|discriminate].
-  - apply crfree_no_bare_cr. apply universal_crfree.
 Qed.
 
 (* ---------------------------------------------------------------------------------------------
@@ -604,13 +583,6 @@ Proof.
       rewrite El. symmetry. apply good_crfree_app. exact Hcr.
     + intros x. destruct (dedent_line_cases sh x) as [[r [El Er]]|[En Er]]; rewrite Er; [|reflexivity].
       rewrite El. symmetry. apply no_bare_cr_crfree_app. exact Hcr.
-Qed.
-
-Lemma dedent_fixed_ok : forall t, dedent_ok t (dedent_fixed t).
-Proof.
-  intros t. unfold dedent_fixed.
-  pose proof (dedent_nbc (universal_newlines t) (crfree_no_bare_cr _ (universal_crfree t))) as H.
-  unfold dedent_ok in *. rewrite phys_lines_universal in H. exact H.
 Qed.
 
 (* ---------------------------------------------------------------------------------------------
@@ -830,16 +802,6 @@ Proof.
   intros. unfold stub_code. apply (stub_wellformed_gen comment_re rstrip); try assumption. reflexivity.
 Qed.
 
-Lemma stub_wellformed_fixed : forall ind p name msg line col1 ltext t,
-  nlfree ind -> crfree ind -> Forall no_le name ->
-  stub_wellformed ind (indent_re ind (stub_fixed p name msg line col1 ltext t)) p name msg line col1 ltext.
-Proof.
-  intros. unfold stub_fixed.
-  apply (stub_wellformed_gen comment_fixed (fun t => rstrip (universal_newlines t))); try assumption.
-  - reflexivity.
-  - apply crfree_no_bare_cr. apply rstrip_crfree. apply universal_crfree.
-Qed.
-
 (* ---------------------------------------------------------------------------------------------
    placement into the module (gencode._make_formula_field) *)
 
@@ -932,12 +894,107 @@ Proof.
   apply (stub_with_nbc comment_re rstrip); try assumption. reflexivity.
 Qed.
 
-Lemma stub_body_nbc_fixed : forall ind p name msg line col1 ltext t,
-  nlfree ind -> crfree ind -> Forall no_le name ->
-  no_bare_cr (indent_re ind (stub_fixed p name msg line col1 ltext t)) = true.
+
+(* ---------------------------------------------------------------------------------------------
+   the chain of _do_make_formula_body / make_formula_body as coded now: formula_text, un-indent *)
+
+Lemma in_join_tail_inv : forall c ls, In c (join_tail ls) -> c = NL \/ exists l, In l ls /\ In c l.
 Proof.
-  intros. apply indent_re_nbc; try assumption. unfold stub_fixed.
-  apply (stub_with_nbc comment_fixed (fun t => rstrip (universal_newlines t))); try assumption.
-  - reflexivity.
-  - apply crfree_no_bare_cr. apply rstrip_crfree. apply universal_crfree.
+  induction ls as [|x ls IH]; intros H; [destruct H|].
+  cbn [join_tail] in H. destruct H as [H|H]; [left; congruence|].
+  apply in_app_or in H. destruct H as [H|H].
+  - right. exists x. split; [left; reflexivity|exact H].
+  - destruct (IH H) as [E|[l [Hl Hc]]]; [left; exact E|right; exists l; split; [right; exact Hl|exact Hc]].
+Qed.
+
+Lemma in_join_nl_inv : forall c ls, In c (join_nl ls) -> c = NL \/ exists l, In l ls /\ In c l.
+Proof.
+  intros c ls H. destruct ls as [|x ls]; [destruct H|]. cbn [join_nl] in H.
+  apply in_app_or in H. destruct H as [H|H].
+  - right. exists x. split; [left; reflexivity|exact H].
+  - destruct (in_join_tail_inv _ _ H) as [E|[l [Hl Hc]]]; [left; exact E|right; exists l; split; [right; exact Hl|exact Hc]].
+Qed.
+
+Lemma dedent_re_in : forall c t, c <> NL -> In c (dedent_re t) -> In c t.
+Proof.
+  intros c t Hc H. unfold dedent_re in H. destruct (shared_indent t) as [|s0 sh']; [exact H|].
+  apply in_join_nl_inv in H. destruct H as [E|[l [Hl Hin]]]; [congruence|].
+  apply in_map_iff in Hl. destruct Hl as [x [<- Hx]].
+  eapply in_lines_nl; [exact Hx|].
+  destruct (strip_prefix_opt (s0 :: sh') x) as [r|] eqn:E; [|exact Hin].
+  apply strip_prefix_opt_some in E. rewrite E. apply in_or_app. right. exact Hin.
+Qed.
+
+Lemma formula_text_in : forall c f, c <> NL -> In c (formula_text f) -> In c f.
+Proof. intros c f Hc H. unfold formula_text in H. apply dedent_re_in in H; [|exact Hc]. apply universal_in in H; assumption. Qed.
+
+Lemma formula_text_crfree : forall f, crfree (formula_text f).
+Proof.
+  intros f H. unfold formula_text in H. apply dedent_re_in in H; [|discriminate].
+  exact (universal_crfree f H).
+Qed.
+
+Lemma comment_out_all_lines : forall f, all_commented (comment_re (formula_text f)).
+Proof.
+  intros f. apply comment_all_lines_nbc. apply crfree_no_bare_cr. apply rstrip_crfree. apply formula_text_crfree.
+Qed.
+
+Lemma indent_all_lines_body : forall ind body, nlfree ind -> crfree ind -> crfree body ->
+  all_indented ind (indent_re ind body).
+Proof. intros. apply indent_all_lines_nbc; try assumption. apply crfree_no_bare_cr. assumption. Qed.
+
+Lemma indent_all_lines : forall ind f, nlfree ind -> crfree ind ->
+  all_indented ind (indent_re ind (formula_text f)).
+Proof. intros. apply indent_all_lines_body; try assumption. apply formula_text_crfree. Qed.
+
+Lemma indent_cols : forall n f, ~ In FF f ->
+  all_indented_cols (repeat SP n) (indent_re (repeat SP n) (formula_text f)).
+Proof.
+  intros n f Hf. apply indent_cols_nbc.
+  - intros Hi. apply Hf. apply formula_text_in in Hi; [exact Hi|discriminate].
+  - apply crfree_no_bare_cr. apply formula_text_crfree.
+Qed.
+
+Lemma dedent_sound : forall f, dedent_ok f (formula_text f).
+Proof.
+  intros f. unfold formula_text.
+  pose proof (dedent_nbc (universal_newlines f) (crfree_no_bare_cr _ (universal_crfree f))) as H.
+  unfold dedent_ok in *. rewrite phys_lines_universal in H. exact H.
+Qed.
+
+Lemma stub_is_wellformed : forall ind p name msg line col1 ltext f,
+  nlfree ind -> crfree ind -> Forall no_le name ->
+  stub_wellformed ind (indent_re ind (stub_of_formula p name msg line col1 ltext f)) p name msg line col1 ltext.
+Proof.
+  intros. unfold stub_of_formula. apply stub_wellformed_nbc; try assumption.
+  apply crfree_no_bare_cr. apply rstrip_crfree. apply formula_text_crfree.
+Qed.
+
+Lemma stub_body_no_bare_cr : forall ind p name msg line col1 ltext f,
+  nlfree ind -> crfree ind -> Forall no_le name ->
+  no_bare_cr (indent_re ind (stub_of_formula p name msg line col1 ltext f)) = true.
+Proof.
+  intros. unfold stub_of_formula. apply stub_body_nbc; try assumption.
+  apply crfree_no_bare_cr. apply rstrip_crfree. apply formula_text_crfree.
+Qed.
+
+(* the un-indent of multi-line strings undoes exactly what _indent did to the lines after the first *)
+Lemma unindent_indent_line : forall ind l, unindent_line ind (indent_line ind l) = l.
+Proof.
+  intros ind l. unfold indent_line, unindent_line. destruct (has_nonspace l) eqn:E.
+  - rewrite strip_prefix_opt_app. rewrite E. reflexivity.
+  - destruct (strip_prefix_opt ind l) as [r|] eqn:Es; [|reflexivity].
+    apply strip_prefix_opt_some in Es. unfold has_nonspace in *. rewrite Es in E.
+    rewrite existsb_app in E. apply orb_false_iff in E. destruct E as [_ E]. rewrite E. reflexivity.
+Qed.
+
+Lemma unindent_inverse : forall ind first l ls, nlfree ind -> nlfree first -> Forall nlfree (l :: ls) ->
+  unindent_re ind (join_nl (first :: map (indent_line ind) (l :: ls))) = join_nl (first :: l :: ls).
+Proof.
+  intros ind first l ls Hi Hf Hls. unfold unindent_re.
+  rewrite lines_nl_of_join.
+  - rewrite map_map. f_equal. f_equal. rewrite <- (map_id (l :: ls)) at 2. apply map_ext. apply unindent_indent_line.
+  - exact Hf.
+  - apply Forall_map. eapply Forall_impl; [|exact Hls]. intros x Hx. unfold indent_line.
+    destruct (has_nonspace x); [|exact Hx]. intros Hin. apply in_app_or in Hin. destruct Hin; [exact (Hi H)|exact (Hx H)].
 Qed.
